@@ -180,6 +180,47 @@ def rule_semrules(crate, dispositions):
     report("STRUCTSUBST:type_from_annotation:sequential", *(crate.loc(tfa, app[0]) if app else (crate.file_of(tfa), tfa["line"])), good=not app,
            ok_msg="struct type arguments are substituted simultaneously",
            bad_msg="the type arguments of a generic struct are collected with Substitution::append, which composes the bindings one after the other: `struct P<A, B>` used as `P<B, Length>` inside `fn g<B>` turns A := B and then B := Length into A := Length (capture).")
+    # ---- RESULTLAST: the value an input "results in" is recorded by every top-level Return and never reset, while the
+    # front end pairs it with the LAST statement of the input
+    assigns = []
+    for x in walk(run["body"]):
+        if x.get("k") == "Assign":
+            p = place_path(x["l"])
+            if p and p[1] == "result_last_statement":
+                assigns.append(x)
+    if not assigns:
+        out.error("anchor missing: assignments to result_last_statement in Vm::run_without_cleanup")
+    else:
+        resets = [x for x in assigns if peel(x["r"]).get("k") == "Path" and peel(x["r"])["res"].get("variant") == "None"]
+        rf_, rl_ = crate.loc(run, assigns[0])
+        report("RESULTLAST:vm:result-of-an-earlier-statement", rf_, rl_, bool(resets),
+               "the recorded result is reset by statements that produce none",
+               "`result_last_statement` is set by every top-level Return and never cleared: the result of a multi-statement input is the value of the last EXPRESSION statement anywhere in it, although later statements (definitions, print) follow — the front end prints it after all other output and pairs it with the type of the input's last statement.")
+    # ---- CMDWORDS: the REPL decides by the first word of a line whether it is a command, before and independently of
+    # the session's names; the words are ordinary identifiers everywhere else
+    fs = [b for d, b in crate.hir.items() if d.endswith("::from_str") and "CommandKind" in (b.get("impl_self") or "")]
+    pp_new = crate.find_fn("prefix_parser::PrefixParser::new", required=False)
+    if not fs or pp_new is None:
+        out.error("anchor missing: <CommandKind as FromStr>::from_str / PrefixParser::new")
+    else:
+        words = set()
+        for m_ in walk(fs[0]["body"]):
+            if m_.get("k") == "Match":
+                for a_ in m_["arms"]:
+                    for p_ in walk(a_["pat"]):
+                        if p_.get("k") == "Lit" and isinstance(p_.get("lit"), dict) and p_["lit"].get("lk") == "str":
+                            words.add(p_["lit"]["v"])
+        ident_words = sorted(w for w in words if w.isidentifier())
+        reserved = {y["lit"]["v"] for y in walk(pp_new["body"]) if y.get("k") == "Lit" and isinstance(y.get("lit"), dict) and y["lit"].get("lk") == "str"}
+        from prec import tokenizer_map
+
+        kw = set(tokenizer_map(crate))
+        free = [w for w in ident_words if w not in reserved and w not in kw]
+        if len(ident_words) < 5:
+            out.error("anchor missing: fewer than 5 command words found in CommandKind::from_str")
+        report("CMDWORDS:command-words-are-free-identifiers", crate.file_of(fs[0]), fs[0]["line"], not free,
+               "every command word is a reserved identifier or a keyword",
+               "the command words %s are neither keywords nor reserved identifiers: `let reset = 5` is accepted, and in the REPL the line `reset` then wipes the session while the same lines in a file evaluate to 5 (`help * 3`, `list` behave likewise)." % ", ".join(free))
     out.analysed = {"sibling_rules": n}
     out.floor("sibling_rules", n, 8)
     return out
